@@ -19,27 +19,37 @@ CONSTANTS Chains,      \* set of chains (sequences of stage records) to enumerat
           Vals,        \* value alphabet of the source
           MaxSteps,    \* number of harness actions after Subscribe
           MaxIllegal,  \* how many notifications the source may emit after its own terminal
-          Cuts         \* BOOLEAN: also enumerate an Unsubscribe at every position
+          Cuts,        \* BOOLEAN: also enumerate an Unsubscribe at every position
+          MaxSubs,     \* how many times the SAME pipeline object is subscribed (C12: a re-subscription starts from fresh state)
+          Faults       \* set of fault plans [stage, at, kind]; stage 0 = no fault, -1 = the source's subscribe function (C07)
 
-VARIABLES chain, sts, phase, srcSub, srcTorn, srcDone, unsub, closed, log, nitems, nillegal, h
+VARIABLES chain, sts, phase, srcSub, srcTorn, srcDone, unsub, closed, log, nitems, nillegal, h, fault, nsubs, prev
 
-vars == <<chain, sts, phase, srcSub, srcTorn, srcDone, unsub, closed, log, nitems, nillegal, h>>
+vars == <<chain, sts, phase, srcSub, srcTorn, srcDone, unsub, closed, log, nitems, nillegal, h, fault, nsubs, prev>>
 
 ItemMark(k) == <<"i0", "i1", "i2", "i3", "i4", "i5", "i6", "i7">>[k + 1]
 SubCtx == {"sub"}
 
-RECURSIVE FeedStage(_, _, _)
-FeedStage(s, st, ns) ==
+ErrFault == 13
+\* C07: a panic inside the user callback of stage i (invocation number fault.at) surfaces as ONE Error notification carrying the
+\* context of the notification being processed; the stage is closed (nothing after it)
+Faulty(i, st, r) == fault.stage = i /\ r.st.cb > st.cb /\ st.cb = fault.at
+StepF(s, i, st, n) ==
+  LET r == OpStep(s, st, n)
+  IN IF ~st.closed /\ Faulty(i, st, r) THEN R([st EXCEPT !.closed = TRUE, !.cb = @ + 1], <<E(ErrFault, n.c)>>) ELSE r
+
+RECURSIVE FeedStage(_, _, _, _)
+FeedStage(s, i, st, ns) ==
   IF ns = <<>> THEN R(st, <<>>)
-  ELSE LET r1 == OpStep(s, st, Head(ns))
-           r2 == FeedStage(s, r1.st, Tail(ns))
+  ELSE LET r1 == StepF(s, i, st, Head(ns))
+           r2 == FeedStage(s, i, r1.st, Tail(ns))
        IN R(r2.st, r1.out \o r2.out)
 
 \* a batch of notifications entering stage i travels to the observer; returns the new stage states and what the observer receives
 RECURSIVE PushFrom(_, _, _, _)
 PushFrom(ch, ss, i, ns) ==
   IF i > Len(ch) \/ ns = <<>> THEN [sts |-> ss, out |-> ns]
-  ELSE LET r == FeedStage(ch[i], ss[i], ns)
+  ELSE LET r == FeedStage(ch[i], i, ss[i], ns)
        IN PushFrom(ch, [ss EXCEPT ![i] = r.st], i + 1, r.out)
 
 \* the observer's own grammar: it accepts values until its first terminal
@@ -61,7 +71,7 @@ SubFrom(ch, ss, i) ==   \* returns [sts, out, reached]: reached = TRUE iff the s
                 up == SubFrom(ch, r.sts, i - 1)
             IN [sts |-> up.sts, out |-> r.out \o up.out, reached |-> up.reached]
 
-Obs(delta, cl, sub, torn) == [log |-> delta, closed |-> cl, sub |-> sub, torn |-> torn]
+Obs(delta, cl, sub, torn) == [log |-> delta, closed |-> cl, sub |-> prev.sub + sub, torn |-> prev.torn + torn]
 
 Init ==
   /\ chain \in Chains
@@ -70,21 +80,36 @@ Init ==
   /\ srcSub = 0 /\ srcTorn = 0 /\ srcDone = FALSE /\ unsub = FALSE /\ closed = FALSE
   /\ log = <<>> /\ nitems = 0 /\ nillegal = 0
   /\ h = <<>>
+  /\ fault \in {f \in Faults : f.stage <= Len(chain)}
+  /\ nsubs = 0 /\ prev = [sub |-> 0, torn |-> 0]
 
+\* Subscribe - also a RE-subscription of the same pipeline object once the previous subscription is closed (C12): stage
+\* states, indices, accumulators, buffers and seen-sets start afresh; only the source's cumulative counters carry over.
 Subscribe ==
-  /\ phase = "new"
-  /\ LET r == SubFrom(chain, sts, Len(chain))
-         d == Deliver(FALSE, r.out)
+  /\ (phase = "new" \/ (phase = "run" /\ closed /\ nsubs < MaxSubs /\ Len(h) <= MaxSteps))
+  /\ LET fresh == [i \in 1..Len(chain) |-> OpInit(chain[i])]
+         r0 == SubFrom(chain, fresh, Len(chain))
+         \* C07: a panic inside the subscribe function of the source reaches the subscriber as one Error notification
+         srcPanics == fault.stage = -1 /\ r0.reached
+         rf == IF srcPanics THEN PushFrom(chain, r0.sts, 1, <<E(ErrFault, SubCtx)>>) ELSE [sts |-> r0.sts, out |-> <<>>]
+         d == Deliver(FALSE, r0.out \o rf.out)
          cl == \E j \in 1..Len(d) : d[j].k \in {"E", "C"}
-     IN /\ sts' = r.sts
-        /\ log' = log \o d
+         nprev == IF phase = "new" THEN prev ELSE [sub |-> prev.sub + srcSub, torn |-> prev.torn + srcTorn]
+         nsub == IF r0.reached THEN 1 ELSE 0
+         \* a source subscribed by an already-closed pipeline is released at once; a subscribe function that panicked returned no teardown
+         ntorn == IF r0.reached /\ ~srcPanics /\ (cl \/ AnyClosed(rf.sts)) THEN 1 ELSE 0
+     IN /\ sts' = rf.sts
+        /\ log' = d
         /\ closed' = cl
-        /\ srcSub' = IF r.reached THEN 1 ELSE 0
-        \* a source subscribed by an already-closed pipeline is released at once
-        /\ srcTorn' = IF r.reached /\ (cl \/ AnyClosed(r.sts)) THEN 1 ELSE 0
-        /\ h' = Append(h, [do |-> "sub", n |-> C({}), exp |-> Obs(d, cl, srcSub', srcTorn')])
+        /\ srcSub' = nsub
+        /\ srcTorn' = ntorn
+        /\ srcDone' = srcPanics
+        /\ prev' = nprev
+        /\ h' = Append(h, [do |-> "sub", n |-> C({}), exp |-> [log |-> d, closed |-> cl, sub |-> nprev.sub + nsub, torn |-> nprev.torn + ntorn]])
   /\ phase' = "run"
-  /\ UNCHANGED <<chain, srcDone, unsub, nitems, nillegal>>
+  /\ nsubs' = nsubs + 1
+  /\ unsub' = FALSE /\ nitems' = 0 /\ nillegal' = 0
+  /\ UNCHANGED <<chain, fault>>
 
 Push(n) ==
   /\ phase = "run" /\ Len(h) <= MaxSteps
@@ -98,19 +123,19 @@ Push(n) ==
         /\ closed' = cl
         /\ srcDone' = (srcDone \/ n.k \in {"E", "C"})
         \* C03 / C14: the source is released in the same step in which the pipeline closes or the source itself ends
-        /\ srcTorn' = IF srcSub = 1 /\ (cl \/ AnyClosed(r.sts) \/ srcDone') THEN 1 ELSE srcTorn
+        /\ srcTorn' = IF srcSub = 1 /\ fault.stage # -1 /\ (cl \/ AnyClosed(r.sts) \/ srcDone') THEN 1 ELSE srcTorn
         /\ h' = Append(h, [do |-> "push", n |-> n, exp |-> Obs(d, cl, srcSub, srcTorn')])
   /\ nitems' = IF n.k = "N" THEN nitems + 1 ELSE nitems
   /\ nillegal' = IF srcDone THEN nillegal + 1 ELSE nillegal
-  /\ UNCHANGED <<chain, phase, srcSub, unsub>>
+  /\ UNCHANGED <<chain, phase, srcSub, unsub, fault, nsubs, prev>>
 
 Unsub ==
   /\ Cuts /\ phase = "run" /\ ~unsub /\ Len(h) <= MaxSteps
   /\ unsub' = TRUE /\ closed' = TRUE
-  /\ srcTorn' = IF srcSub = 1 THEN 1 ELSE srcTorn
+  /\ srcTorn' = IF srcSub = 1 /\ fault.stage # -1 THEN 1 ELSE srcTorn
   /\ sts' = [i \in 1..Len(chain) |-> [sts[i] EXCEPT !.closed = TRUE]]
   /\ h' = Append(h, [do |-> "unsub", n |-> C({}), exp |-> Obs(<<>>, TRUE, srcSub, srcTorn')])
-  /\ UNCHANGED <<chain, phase, srcSub, srcDone, log, nitems, nillegal>>
+  /\ UNCHANGED <<chain, phase, srcSub, srcDone, log, nitems, nillegal, fault, nsubs, prev>>
 
 NextNotif ==
   {N(v, SubCtx \cup {ItemMark(nitems)}) : v \in Vals} \cup {E(1, SubCtx \cup {"t"}), C(SubCtx \cup {"t"})}
@@ -121,7 +146,7 @@ Spec == Init /\ [][Next]_vars
 
 \* a behaviour is maximal when the step budget is used up, or when nothing more may be done (the source has ended,
 \* its illegal-suffix budget is spent, and the Unsubscribe - if enumerated - has been issued)
-Done == phase = "run" /\ (Len(h) = MaxSteps + 1 \/ (srcDone /\ nillegal >= MaxIllegal /\ (~Cuts \/ unsub)))
+Done == phase = "run" /\ (Len(h) = MaxSteps + 1 \/ (srcDone /\ nillegal >= MaxIllegal /\ (~Cuts \/ unsub) /\ nsubs >= MaxSubs))
 
 (* ------------------------------ properties ----------------------------- *)
 \* C01: values, then at most one terminal, then silence
@@ -130,11 +155,13 @@ Grammar == \A j \in 1..Len(log) : j < Len(log) => log[j].k = "N"
 \*      (ContextReset replaces the context by definition; DefaultIfEmpty's plain form and Max(empty) are pinned deviations)
 CtxDerived == \A j \in 1..Len(log) : log[j].c # NILCTX
 \* C03 / C14: closed => the source has been released (if it was ever subscribed), at most once by construction
-ClosedImpliesTorn == closed => (srcSub = 1 => srcTorn = 1)
+ClosedImpliesTorn == closed => ((srcSub = 1 /\ fault.stage # -1) => srcTorn = 1)   \* a subscribe function that panicked returned no teardown
 \* C06: nothing is delivered after Unsubscribe (by construction of Deliver); the log is frozen once closed
 TypeOK == srcSub \in 0..1 /\ srcTorn \in 0..1 /\ srcTorn <= srcSub
 
 \* the generator: every maximal behaviour is printed as one JSON case
-EmitCase == Done => PrintT(ToJson([chain |-> chain, steps |-> h,
+EmitCase == Done => PrintT(ToJson([chain |-> chain, steps |-> h, fault |-> fault, nsubs |-> nsubs,
                                    cbn |-> [i \in 1..Len(chain) |-> sts[i].cb]]))
+\* C07: once a fault surfaced nothing follows it (Grammar) and it surfaced exactly once
+NoFault == [stage |-> 0, at |-> 0, kind |-> "none"]
 =============================================================================
